@@ -76,7 +76,7 @@ def leaf_kind(m):
 
 def tree_wire(m, ids, path=""):
     """wire string of a torch module tree; ids: path → small integer"""
-    children = list(m.named_children())
+    children = [(n, c) for n, c in m._modules.items() if c is not None]   # named_children() without its memo
     i = ids[path]
     if not children and not isinstance(m, (torch.nn.Sequential, torch.nn.ModuleList, torch.nn.ModuleDict, Block)):
         k, q = leaf_kind(m)
@@ -206,6 +206,40 @@ class ActSpy:
     def __exit__(self, *a):
         for mod, f in self.orig:
             mod.quantize_activation = f
+
+
+def dag_cases(ctx, lines, expect):
+    """Module objects reachable along two paths (shared / tied layers).  Outside the quantifier of C08 (module
+    *trees*): nothing is judged here, the model of `named_modules()` with its memo (`loop08`) is only compared
+    with what the implementation does.  Only shared *leaves*: a shared container is mutated in place, which every
+    reference sees, and the model's trees are values (not modelled)."""
+    import optimum.quanto as q
+    rng = ctx.rng
+    for _ in range(12 if not ctx.thorough else 300):
+        shared_leaf = torch.nn.Linear(4, 4)
+        shape = rng.randrange(3)
+        if shape == 0:
+            model = torch.nn.Sequential(shared_leaf, torch.nn.ReLU(), shared_leaf)
+        elif shape == 1:
+            model = torch.nn.Sequential(Block(a=shared_leaf, b=torch.nn.Linear(4, 4)), Block(c=torch.nn.LayerNorm(4), d=shared_leaf))
+        else:
+            model = Block(x=torch.nn.Sequential(torch.nn.Linear(4, 4), shared_leaf), y=shared_leaf, z=torch.nn.Conv2d(2, 2, 1), w=Block(inner=shared_leaf))
+        ident = {}
+        ids = {}
+        for n_, m in model.named_modules(remove_duplicate=False):
+            ids[n_] = ident.setdefault(id(m), len(ident))
+        yielded = [n_ for n_, _ in model.named_modules()]
+        before = tree_wire(model, ids)
+        wq = rng.choice(["qint8", "qint4", "qfloat8"])
+        aq = rng.choice([None, "qint8"])
+        try:
+            q.quantize(model, weights=q.qtypes[wq], activations=None if aq is None else q.qtypes[aq])
+        except Exception as e:  # noqa
+            ctx.count(f"dag:quantize-raises:{exc_name(e)}")
+            continue
+        lines.append(f"loop08 {before} none {wq} {'none' if aq is None else aq}")
+        expect.append(tree_wire(model, ids) + " " + ";".join(yielded))
+        ctx.count(f"dag:shape={shape}")
 
 
 def forward_cases(ctx, lines, expect):
@@ -384,6 +418,7 @@ def run(ctx):
                          "distinct = (tree, filter, qtypes) / (kind, hyper-parameters, qtypes, dtype, input kind); non-trivial = all")
     lines, expect = [], []
     tree_cases(ctx, lines, expect)
+    dag_cases(ctx, lines, expect)
     forward_cases(ctx, lines, expect)
     directed(ctx)
     got = run_driver(lines)
